@@ -376,6 +376,101 @@ pub(crate) fn l1_local_node_drop_reuse() {
     vcover!("l1_local_node_drop_reuse_end");
 }
 
+/// `Node::traverse` with its loop unrolled three times by hand (used via kani::stub in harnesses
+/// whose lists have at most three nodes, where CBMC cannot see the bound of the pointer-chasing
+/// loop and would otherwise replicate the heavy closure body up to the global unwinding limit).
+/// Same statements as the original, loop replaced by three copies of its body plus an obligation
+/// that the list really ends there; the original loop is proved separately (l1_node_traverse).
+pub(crate) fn traverse_unrolled3<R, F: FnMut(&'static Node) -> Option<R>>(mut f: F) -> Option<R> {
+    let current = unsafe { LIST_HEAD.load(SeqCst).as_ref() };
+    let node = match current {
+        Some(n) => n,
+        None => return None,
+    };
+    let result = f(node);
+    if result.is_some() {
+        return result;
+    }
+    let node = match unsafe { node.next.as_ref() } {
+        Some(n) => n,
+        None => return None,
+    };
+    let result = f(node);
+    if result.is_some() {
+        return result;
+    }
+    let node = match unsafe { node.next.as_ref() } {
+        Some(n) => n,
+        None => return None,
+    };
+    let result = f(node);
+    if result.is_some() {
+        return result;
+    }
+    vassert!(node.next.is_null(), "harness_list_has_at_most_three_nodes");
+    None
+}
+
+pub(crate) fn traverse_unrolled2<R, F: FnMut(&'static Node) -> Option<R>>(mut f: F) -> Option<R> {
+    let current = unsafe { LIST_HEAD.load(SeqCst).as_ref() };
+    let node = match current {
+        Some(n) => n,
+        None => return None,
+    };
+    let result = f(node);
+    if result.is_some() {
+        return result;
+    }
+    let node = match unsafe { node.next.as_ref() } {
+        Some(n) => n,
+        None => return None,
+    };
+    let result = f(node);
+    if result.is_some() {
+        return result;
+    }
+    vassert!(node.next.is_null(), "harness_list_has_at_most_two_nodes");
+    None
+}
+
+pub(crate) fn traverse_unrolled1<R, F: FnMut(&'static Node) -> Option<R>>(mut f: F) -> Option<R> {
+    let current = unsafe { LIST_HEAD.load(SeqCst).as_ref() };
+    let node = match current {
+        Some(n) => n,
+        None => return None,
+    };
+    let result = f(node);
+    if result.is_some() {
+        return result;
+    }
+    vassert!(node.next.is_null(), "harness_list_has_exactly_one_node");
+    None
+}
+
+/// The contract of `LocalNode::help` / `helping::Slots::help` without interference, as an
+/// executable stub (used via kani::stub where `help` is a callee, not the function under proof; the
+/// contract itself is discharged on the real function by l1_helping_help):
+///   who.control GEN-tagged and who.active_addr == storage_addr  => the replacement closure runs
+///   once, its value goes into my current envelope, who.control := envelope|REPLACEMENT_TAG, my
+///   space_offer := their space_offer, the reference travels with the envelope;
+///   otherwise nothing is written and the closure is not called.
+pub(crate) fn help_contract<R, T>(me: &LocalNode, who: &Node, storage_addr: usize, replacement: &R)
+where
+    T: crate::RefCnt,
+    R: Fn() -> T,
+{
+    let mine = me.node.get().expect("LocalNode::with ensures it is set");
+    let v = helping_h::view(&who.helping);
+    if v.control & helping_h::C_TAG_MASK == helping_h::C_GEN_TAG && v.active_addr == storage_addr {
+        let r = replacement();
+        let my_space = helping_h::view(&mine.helping).space_offer;
+        helping_h::poke_handover(my_space, T::as_ptr(&r) as usize);
+        helping_h::poke_control(&who.helping, my_space | helping_h::C_REPL_TAG);
+        helping_h::poke_space_offer(&mine.helping, v.space_offer);
+        T::into_ptr(r);
+    }
+}
+
 static mut VISITED: [usize; 4] = [0; 4];
 static mut VISITS: usize = 0;
 
@@ -450,3 +545,4 @@ pub(crate) fn l1_local_node_helping_roundtrip() {
     });
     vcover!("l1_local_node_helping_roundtrip_end");
 }
+
